@@ -14,7 +14,8 @@ Record eobs := mkE
     e_rollback : bool;   (* errors.Is(err, <the driver's Rollback error>) *)
     e_same : bool;       (* err == the very error value the body returned *)
     e_recover : bool;    (* text starts with "recover from " *)
-    e_txfailed : bool }. (* text starts with "transaction failed: <body error>, rollback failed: " *)
+    e_txfailed : bool;   (* text starts with "transaction failed: <body error>, rollback failed: " *)
+    e_canceled : bool }. (* errors.Is(err, context.Canceled) *)
 
 Record case := mkCase
   { cin : input;                (* fault plan; [ibrk] is the observed breaker verdict *)
@@ -48,19 +49,22 @@ Definition eobs_eqb (a b : eobs) : bool :=
   Bool.eqb (e_nil a) (e_nil b) && Bool.eqb (e_unavail a) (e_unavail b) &&
   Bool.eqb (e_begin a) (e_begin b) && Bool.eqb (e_commit a) (e_commit b) &&
   Bool.eqb (e_rollback a) (e_rollback b) && Bool.eqb (e_same a) (e_same b) &&
-  Bool.eqb (e_recover a) (e_recover b) && Bool.eqb (e_txfailed a) (e_txfailed b).
+  Bool.eqb (e_recover a) (e_recover b) && Bool.eqb (e_txfailed a) (e_txfailed b) &&
+  Bool.eqb (e_canceled a) (e_canceled b).
 
 (* the facts the harness would read off each error term of the model *)
+Definition is_bctx (b : berr) : bool := match b with BCtx _ => true | _ => false end.
 Definition facts (e : err) : eobs :=
   match e with
-  | ENil                => mkE true  false false false false false false false
-  | EUnavailable        => mkE false true  false false false false false false
-  | EBegin              => mkE false false true  false false false false false
-  | EBody _             => mkE false false false false false true  false false
-  | ECommit             => mkE false false false true  false false false false
-  | ERecover            => mkE false false false false false false true  false
-  | ERecoverRollback    => mkE false false false false true  false true  false
-  | ETxFailedRollback _ => mkE false false false false true  false false true
+  | ENil                => mkE true  false false false false false false false false
+  | EUnavailable        => mkE false true  false false false false false false false
+  | ECanceled           => mkE false false false false false false false false true
+  | EBegin              => mkE false false true  false false false false false false
+  | EBody b             => mkE false false false false false true  false false (is_bctx b)
+  | ECommit             => mkE false false false true  false false false false false
+  | ERecover            => mkE false false false false false false true  false false
+  | ERecoverRollback    => mkE false false false false true  false true  false false
+  | ETxFailedRollback _ => mkE false false false false true  false false true  false
   end.
 
 (* the model reproduces exactly what the implementation did *)
@@ -88,9 +92,9 @@ Definition prop_ok (c : case) : bool :=
   let e := oerr c in
   match olog c with
   | [] =>
-    (* no transaction at all: only when the breaker refused the call; the body did
-       not run and the caller is told *)
-    negb (ibrk (cin c)) && (oruns c =? 0) && negb (e_nil e)
+    (* no transaction at all: only when the context was already cancelled or the breaker
+       refused the call; the body did not run and the caller is told *)
+    negb (let_through (cin c)) && (oruns c =? 0) && negb (e_nil e)
   | (CBegin, false) :: rest =>
     (* cannot begin: nothing else reaches the driver, the body is not run *)
     match rest with [] => true | _ => false end && (oruns c =? 0) && negb (e_nil e)
